@@ -16,6 +16,8 @@ def get_xorkey(data: bytes) -> int:
 
 
 def apply_xor_key(xorkey: int, data: bytes, node: Node, new_node_type: str) -> Node:
+    if not 0 <= xorkey <= 255:
+        return node  # Not a single byte key, xoring with it would not give bytes
     data = bytes(b ^ xorkey for b in data)
     node.children.append(
         Node(
